@@ -40,6 +40,16 @@ def fmt_flags(fmt):
 
 
 # ----------------------------------------------------------- hash seeds = set orders ------
+def seed_for_order(items, order, limit=600):
+    """a PYTHONHASHSEED under which list(set(items)) comes out in the given order (indices into items)"""
+    code = "import sys;s=set(sys.argv[1:]);print(' '.join(str(sys.argv[1:].index(x)) for x in s))"
+    for seed in range(1, limit):
+        r = subprocess.run([sys.executable, "-c", code] + list(items), env=dict(os.environ, PYTHONHASHSEED=str(seed)), capture_output=True, text=True)
+        if tuple(int(x) for x in r.stdout.split()) == tuple(order):
+            return seed
+    return None
+
+
 def seeds_for_all_orders(items, limit=400):
     """PYTHONHASHSEED values realising every iteration order of set(items) (strings)"""
     want = set(itertools.permutations(range(len(items))))
@@ -72,9 +82,23 @@ def one_build(case):
 
     fmt = case["fmt"]
     n = case.get("n", 3)
-    w = cli.mkscratch("c08")
+    spec = case.get("seed", 0)
+    paths_order = spec.get("paths_order") if isinstance(spec, dict) else None
+    if paths_order is not None:
+        # the iteration order of the set of *source paths* depends on the very path strings: a work
+        # directory with a fixed name, and a seed searched for exactly those strings
+        w = cli.scratch_root() / ("c08-%s-paths-%s" % (fmt, "".join(map(str, paths_order))))
+        shutil.rmtree(w, ignore_errors=True)
+        w.mkdir(parents=True)
+    else:
+        w = cli.mkscratch("c08")
     try:
         cwd, bd, files = place(w, case, n)
+        if paths_order is not None:
+            found = seed_for_order([str(f) for f in files[:len(paths_order)]], paths_order)
+            if found is None:
+                return [{"status": "skipped", "clause": "C08.set-order-not-realised", "fp": "paths-order-not-realised"}]
+            case = dict(case, seed=found)
         perm = case.get("perm") or list(range(n))
         args = [str(files[i]) for i in perm]
         if case.get("relative"):
@@ -278,9 +302,7 @@ def run(report, tier, only=None):
     # hash seeds realising every iteration order of the set of source paths / of glyph names
     from vmc.drive import cli
 
-    probe_dir = cli.scratch_root() / "seedprobe" / "src"
     names = [nm for nm, _ in source_texts(3)]
-    path_items = [str(probe_dir / nm) for nm in names]
     from nanoemoji.glyph import glyph_name
     from nanoemoji import codepoints as cps
 
@@ -288,7 +310,7 @@ def run(report, tier, only=None):
     seeds = {}
     cover = {}
     # the two-element attribute-name set nanoemoji's OT-SVG writer iterates over (svg._PAINT_ATTRIB_APPLY_PAINT_MAY_SET)
-    for label, items in (("paths", path_items), ("names", name_items), ("file-names", names), ("paint-attributes", ["fill", "opacity"])):
+    for label, items in (("names", name_items), ("file-names", names), ("paint-attributes", ["fill", "opacity"])):
         found, total = seeds_for_all_orders(items)
         cover[label] = f"{len(found)}/{total}"
         if len(found) < total:
@@ -300,7 +322,9 @@ def run(report, tier, only=None):
     report.extra["hash_seeds_used"] = seed_values
     dims = {
         "perm": perms,
-        "seed": [0] + seed_values,
+        # hash seeds: one per iteration order of each path-independent str set, plus one *searched per build*
+        # for every iteration order of the set of the first three source paths (see one_build)
+        "seed": [0] + seed_values + [{"paths_order": list(o)} for o in itertools.permutations(range(3))],
         "jobs": [None, 1, 2, 16],
         "build_dir": ["default", "nested", "space"],
         "cwd": ["work", "src", "root"],
@@ -317,9 +341,16 @@ def run(report, tier, only=None):
             for d in devs:
                 cases.append(dict(d, fmt=fmt, n=n))
         res = listing.run(report, cases, execute, timeout=900, jobs=6)
+        realised = wanted = 0
         for c, vs in zip(cases, res):
+            if isinstance(c.get("seed"), dict):
+                wanted += 1
+                realised += 1 if (vs and "sha" in vs[0]) else 0
             if vs and "sha" in vs[0]:
                 shas.setdefault(c["fmt"], {}).setdefault(vs[0]["sha"], []).append(c)
+        report.extra["set_orders_realised"]["source-paths"] = f"{realised}/{wanted} builds (3! orders x formats), each under a seed searched for its own path strings"
+        if realised < wanted:
+            report.cap_hit(f"{wanted - realised} iteration orders of the source-path set were not realised within the seed search limit")
     # schedules
     if only in (None, "sched"):
         sched_n = 2 if tier == "quick" else 3
